@@ -98,9 +98,15 @@ def run_case(desc):
                 out.fail("region-partition", "basis atoms and outliers do not partition the atoms (%d + %d of %d, overlap %d)" % (len(b), len(o), n, len(b & o)))
             if len(b) / n < float(p.get("min_coverage", 0.5)) - 1e-12:
                 out.fail("region-coverage", "region covers %.3f < min_coverage %.3f" % (len(b) / n, float(p.get("min_coverage", 0.5))))
-    ok, c2 = call(lambda: Classifier(**p).classify(s))
-    if ok and type(c2) is not t:
-        out.fail("repeatable", "second classification gives %s after %s" % (type(c2).__name__, t.__name__))
-    elif ok and t in (mc.Surface, mc.Material2D) and set(c2.basis_indices) != set(c.basis_indices):
-        out.fail("repeatable", "second classification finds a different region")
+    # history on ONE classifier instance: s, a different structure, s again - the answer for s must not depend on what the
+    # instance classified before
+    clf = Classifier(**p)
+    other = s[[i for i in range(n) if i % 2 == 0]] if n >= 2 else s
+    ok, h = call(lambda: (clf.classify(s), clf.classify(other), clf.classify(s)))
+    if ok:
+        h1, _, h3 = h
+        if type(h1) is not t or type(h3) is not t:
+            out.fail("repeatable" if type(h1) is not t else "instance-history", "a second Classifier instance gives %s, then (after classifying another structure) %s; the first instance gave %s" % (type(h1).__name__, type(h3).__name__, t.__name__))
+        elif t in (mc.Surface, mc.Material2D) and (set(h3.basis_indices) != set(c.basis_indices) or set(h1.basis_indices) != set(c.basis_indices)):
+            out.fail("instance-history", "region of the same structure differs after the instance classified another structure")
     return out
